@@ -90,6 +90,14 @@ type bgen struct {
 	opts     wproto.FlattenOpts
 }
 
+// confusable maps a name to a sibling that naive string handling may confuse it with (same text up to
+// a '#', a letter case, a prefix, all-punctuation names that mangle to the same empty string).
+var confusable = map[string][]string{
+	"h#x": {"h#y"}, "h#y": {"h#x"}, "pet": {"PET", "Pet", "petOwner"}, "Pet": {"pet", "PET"}, "PET": {"pet"},
+	"a/b": {"a/b c", "a"}, "?": {"#", "[]"}, "[]": {"{}", "?"}, "{}": {"[]"}, "#": {"?"}, "~": {"?", "~1"},
+	"q?x": {"q?y", "q"}, "tag": {"Tag"}, "Tag": {"tag"},
+}
+
 func (g *bgen) names(lo, hi int) []string {
 	n := g.Int(lo, hi)
 	seen := map[string]bool{}
@@ -101,6 +109,21 @@ func (g *bgen) names(lo, hi int) []string {
 		}
 		seen[nm] = true
 		out = append(out, nm)
+	}
+	// now and then add a sibling of a chosen name that is easily confused with it
+	if len(out) > 0 && g.layer > 0 && g.Pct(20) {
+		base := out[g.Int(0, len(out)-1)]
+		if sibs := confusable[base]; len(sibs) > 0 {
+			sib := g.Pick(sibs)
+			ok := !seen[sib]
+			for _, c := range NameClasses(sib) {
+				ok = ok && !g.cfg.Exclude[c]
+			}
+			if ok {
+				out = append(out, sib)
+				g.Label("confusable-sibling")
+			}
+		}
 	}
 	return out
 }
@@ -419,7 +442,7 @@ func GenFlattenCase(d *D, cfg BundleCfg) *FlattenCase {
 		g.auxDefs[p] = ns
 	}
 	g.Label(fmt.Sprintf("aux:%d", len(g.aux)))
-	if len(g.aux) == 0 && !cfg.NoKeepNames && !(cfg.KeepNamesPlainOnly && g.layer > 0) && g.Pct(15) {
+	if len(g.aux) == 0 && !cfg.NoKeepNames && !(cfg.KeepNamesPlainOnly && g.layer > 0) && g.Pct(40) {
 		g.opts.KeepNames = true
 	}
 	// collisions: an auxiliary definition whose folded name meets another definition's must be $ref-free
